@@ -258,6 +258,17 @@ pub fn chain4(d: u32) -> Vec<u32> {
     freqs.iter().map(|&f| f.min(u32::MAX as u64) as u32).collect()
 }
 
+/// Geometric profile with ratio 4: one symbol of weight 1 and three symbols of weight 4^j for j < d
+/// (n = 4^d): the 4-ary Huffman code has depth d and H0 + 2 is far below 2*ceil(log4(#symbols)).
+pub fn geom4(d: u32) -> Vec<u32> {
+    let mut v = vec![1u32];
+    for j in 0..d {
+        let w = 4u32.pow(j);
+        v.extend([w, w, w]);
+    }
+    v
+}
+
 /// `m` interleaved copies of the chain4(d) profile: a deep code whose upper levels hold several
 /// internal nodes (deep *and* bushy), unlike the single chain.
 pub fn chain4x(d: u32, m: usize) -> Vec<u32> {
